@@ -134,6 +134,8 @@ Definition ops : list (string * (tree -> tree)) := [
   ("c01", c01_of);
   ("c09", c09_of);
   ("c09_hist", c09_hist_of);
+  (* [cfg, R, max_width?]: Measurement.get(console, r) with max_width omitted ([] = None = console width) or given *)
+  ("c09_get", fun t => ofRes ofM (measure_opt (tCfg (tNth t 0)) (tRR (tNth t 1)) (tOZ (tNth t 2))));
   (* [cfg, R, W]: the same rendering as c01, for the UNGUARDED checker spec.fits (known-finding witnesses only;
      no generator emits it) *)
   ("fits_raw", fun t => enc false (render (tCfg (tNth t 0)) (tRR (tNth t 1)) ro0 (tZ (tNth t 2))));
